@@ -492,7 +492,11 @@ func c10Run(w *W) {
 }
 
 func init() {
-	register(&Scenario{Name: "close-everything", Prop: "C10", Horizon: time.Hour, Run: c10Run})
+	register(&Scenario{Name: "close-everything", Prop: "C10", Horizon: time.Hour, Weight: 150, Run: c10Run})
+	// the real OS transports (engine R): hostile and vanishing peers against
+	// tcp / tls+tcp / ws / wss listeners, then every socket is closed and no
+	// goroutine may be left executing library code (W.realCensus)
+	register(&Scenario{Name: "close-real-transports", Prop: "C10", Engine: "R", Weight: 1, Run: c16Real})
 	// C14's last clause ("after the dialer or its socket is closed no new
 	// connection attempt is started ... for Close at any phase") is decided by
 	// the same runs: the close races Dial / NewDialer / redial timers, and the
